@@ -158,6 +158,9 @@ def body(chk):
     from harness import concur
 
     concur.run(chk)
+    from harness import envrun
+
+    envrun.run(chk, {"leader", "spurious_error", "structure"})
     chk.finish(
         rule="instances = every <<file, params>> TLC enumerated in MC_Framing (attitude points 1..136 incl. non-standard "
              "record lengths, channels 1..16, facility lengths {66,67,100,1000,5000}^4, map projection 0/1, file pointers "
